@@ -28,6 +28,24 @@ PRE = ("From Coq Require Import ZArith NArith List PrimFloat.\nImport ListNotati
        "     orders_okb cfD cifD e n0 i ce mo && ffinite v && feq (pf_yhat cfD cifD e n0 i ce mo) v) rows.\n")
 
 
+PRE_CUM = PRE.replace("Model.FloatDecay", "Model.FloatDecay Model.FloatCum") + (
+    "(* hypothesis of the cumulative theorem: each stored E'_k within 2^-50 / lambda_k of (1 - exp(-lambda_k t)) / lambda_k *)\n"
+    "Definition e_acc_cum (secs : float) (kv : N * float) : bool :=\n"
+    "  let lamk := ifloat prec80 (nth (N.to_nat (fst kv)) default_lam_val 0%float) in\n"
+    "  let x := clampI prec80 (I.exp prec80 (I.neg (I.mul prec80 lamk (ifloat prec80 secs)))) in\n"
+    "  within prec80 (ifloat prec80 (snd kv)) (I.div prec80 (I.sub prec80 (I.fromZ prec80 1) x) lamk) (I.div prec80 (idyadic prec80 1 (-50)) lamk).\n"
+    "(* every radioactive k that meets a non-zero initial amount through C^-1 has a stored E'_k *)\n"
+    "Fixpoint rows_ok_cum (j : N) (e : frow) (k : N) (rows : list frow) : bool :=\n"
+    "  match rows with [] => true | r :: rest => (negb (stored r j) || memN k (fcols e) || fzero (nth (N.to_nat k) default_lam_val 0%float)) && rows_ok_cum j e (N.succ k) rest end.\n"
+    "Definition relevant_in_e_cum (e n0 : frow) : bool := forallb (fun jv => fzero (snd jv) || rows_ok_cum (fst jv) e 0%N cifD) n0.\n"
+    "Definition radio_only (e : frow) : bool := forallb (fun kv => negb (fzero (nth (N.to_nat (fst kv)) default_lam_val 0%float))) e.\n"
+    "Definition chk_cum (c : float * frow * frow * list (N * list N * list N * float * float)) : bool := let '(secs, e, n0, rows) := c in\n"
+    "  forallb (e_acc_cum secs) e && radio_only e && relevant_in_e_cum e n0 && nonneg n0 && PrimFloat.leb 0%float secs &&\n"
+    "  forallb (fun r => let '(i, ce, mo, lami, v) := r in\n"
+    "     orders_okb_cum cfD cifD e n0 i ce mo && ffinite v &&\n"
+    "     feq lami (nth (N.to_nat i) default_lam_val 0%float) && feq (pf_cum cfD cifD e n0 i ce mo lami) v) rows.\n")
+
+
 def nlist(l):
     return "[" + "; ".join(f"{x}%N" for x in l) + "]"
 
@@ -39,8 +57,11 @@ def frow(l):
 def floateval_stream(rng, ncases, streams, viol, samples):
     names, stable = U.dataset_names()
     cases = [c for c in D.gen_cases(rng, names, stable, ncases, max(2, ncases // 3), "Inventory") if "pre" not in c and c["unit"] == "num"]
+    for c in cases:
+        c["cum"] = True
     impl = U.run_impl("impl_floateval.py", cases, timeout=3000)
     terms, tmap, bad_prop = [], [], []
+    cterms, cmap, ncrows = [], [], 0
     nrows = 0
     for kk, (c, r) in enumerate(zip(cases, impl)):
         if "err" in r:
@@ -50,6 +71,25 @@ def floateval_stream(rng, ncases, streams, viol, samples):
         nrows += len(r["rows"])
         terms.append(f"({Q.fhex(float.fromhex(r['secs']))}, {frow(r['e'])}, {frow(r['n0'])}, {rows})")
         tmap.append(kk)
+        if r.get("rows_cum"):
+            crows = "[" + "; ".join(f"({i}%N, {nlist(ce)}, {nlist(mo)}, {Q.fhex(float.fromhex(li))}, {Q.fhex(float.fromhex(v))})"
+                                    for i, ce, mo, li, v in r["rows_cum"]) + "]"
+            ncrows += len(r["rows_cum"])
+            cterms.append(f"({Q.fhex(float.fromhex(r['secs']))}, {frow(r['e_cum'])}, {frow(r['n0'])}, {crows})")
+            cmap.append(kk)
+    cbad, cerrs = Q.run_cases("floatcum", PRE_CUM, "float * frow * frow * list (N * list N * list N * float * float)", cterms, "chk_cum",
+                              shard=12, timeout=1500)
+    streams["cumulative_bitlevel"] = {"cases": len(cterms), "entries": ncrows, "model_disagrees": len(cbad), "coq_errors": len(cerrs),
+                                      "what": "Inventory.cumulative_decays vs the primitive-float model (same product chain with the diagonal "
+                                              "(1-exp(-lambda t))/lambda observed, then one multiplication by the float decay constant): bit-identical; "
+                                              "side conditions and accuracy of the stored diagonal checked per case"}
+    for i in cbad[:3]:
+        kk = cmap[i]
+        viol.append({"name": f"cum-bitlevel-model-{i}", "found_input": False, "key": f"cum-bitlevel-model:{i}",
+                     "payload": {"broken": "primitive-float model of cumulative_decays and the implementation disagree (or a side condition fails)",
+                                 "input": cases[kk], "observed_rows": impl[kk]["rows_cum"][:3]}})
+    if cerrs:
+        viol.append({"name": "cum-bitlevel-coq", "found_input": False, "key": "cum-bitlevel-coq", "payload": {"broken": "Coq evaluation failed", "errors": cerrs[:2]}})
     bad, errs = Q.run_cases("floateval", PRE, "float * frow * frow * list (N * list N * list N * float)", terms, "chk", shard=12, timeout=1500)
     streams["decay_bitlevel"] = {"cases": len(cases), "entries": nrows, "model_disagrees": len(bad), "impl_property_failures": len(bad_prop),
                                  "coq_errors": len(errs),
